@@ -292,8 +292,15 @@ func (fc *factCtx) assignedBetween(objs map[types.Object]bool, from, to token.Po
 	ast.Inspect(fc.fn, func(n ast.Node) bool {
 		switch s := n.(type) {
 		case *ast.AssignStmt:
+			at := s.Pos()
+			if s.Pos() <= to && to < s.End() {
+				// the window ends inside this very statement (`xs = f(xs, i)` with the use among
+				// the operands): the operands are evaluated before the assignment takes effect,
+				// so it counts only through a loop
+				at = s.End()
+			}
 			for _, l := range s.Lhs {
-				check(l, s.Pos())
+				check(l, at)
 			}
 		case *ast.IncDecStmt:
 			check(s.X, s.Pos())
